@@ -257,9 +257,21 @@ def r4(ctx):
         while isinstance(e, ast.Call) and isinstance(e.func, ast.Name) and e.func.id in ('list', 'tuple', 'iter') and len(e.args) == 1:
             e = e.args[0]
         return e if isinstance(e, (ast.ListComp, ast.GeneratorExp)) and len(e.generators) == 1 else None
+    # an intermediate table position -> context letter built once from the call dictionary ({k: call.get('context', '.') for k, call in D.items()})
+    letter_tables = set()
+    for a_ in walk_no_nested(f):
+        if isinstance(a_, ast.Assign) and len(a_.targets) == 1 and isinstance(a_.targets[0], ast.Name) and isinstance(a_.value, ast.DictComp) and len(a_.value.generators) == 1:
+            g0 = a_.value.generators[0]
+            if not g0.ifs and isinstance(g0.target, ast.Tuple) and len(g0.target.elts) == 2 and all(isinstance(e_, ast.Name) for e_ in g0.target.elts) and isinstance(g0.iter, ast.Call) \
+                    and isinstance(g0.iter.func, ast.Attribute) and g0.iter.func.attr == 'items' and src(g0.iter.func.value) in calldicts and src(a_.value.key) == g0.target.elts[0].id \
+                    and context_lookup(a_.value.value, lambda v_, nm_=g0.target.elts[1].id: isinstance(v_, ast.Name) and v_.id == nm_):
+                letter_tables.add(a_.targets[0].id)
     ok = False
     if len(xm) == 1 and isinstance(xm[0].value, ast.Call) and last_name(src(xm[0].value.func)) == 'Counter' and len(xm[0].value.args) == 1:
-        cp = comp_of(xm[0].value.args[0])
+        a0 = xm[0].value.args[0]
+        if isinstance(a0, ast.Call) and isinstance(a0.func, ast.Attribute) and a0.func.attr == 'values' and not a0.args and src(a0.func.value) in letter_tables:
+            ok = True
+        cp = comp_of(xm[0].value.args[0]) if not ok else None
         if cp is not None:
             g_ = cp.generators[0]
             ok = not g_.ifs and isinstance(g_.target, ast.Name) and isinstance(g_.iter, ast.Call) and not g_.iter.args and isinstance(g_.iter.func, ast.Attribute) and g_.iter.func.attr == 'values' \
@@ -301,7 +313,11 @@ def r4(ctx):
                     member = isinstance(t_, ast.Compare) and len(t_.ops) == 1 and isinstance(t_.ops[0], ast.In) and src(t_.left) == key and src(t_.comparators[0]) in calldicts
                     direct = lambda v: isinstance(v, ast.Subscript) and src(v.value) in calldicts and src(v.slice).strip('()') == key.strip('()')
                     return member and isinstance(no, ast.Constant) and no.value == '.' and context_lookup(yes, direct)
-                ok = bool(pairs) and len(tnames) == 2 and only_none and (context_lookup(cp.elt, is_site) or guarded_lookup(cp.elt))
+                def table_lookup(e):
+                    # `T.get((contig, position), '.')` on the letter table
+                    return isinstance(e, ast.Call) and isinstance(e.func, ast.Attribute) and e.func.attr == 'get' and src(e.func.value) in letter_tables and len(e.args) == 2 and len(tnames) == 2 \
+                        and src(e.args[0]) == f'({rd}.reference_name, {tnames[1]})' and isinstance(e.args[1], ast.Constant) and e.args[1].value == '.'
+                ok = bool(pairs) and len(tnames) == 2 and only_none and (context_lookup(cp.elt, is_site) or guarded_lookup(cp.elt) or table_lookup(cp.elt))
     ctx.emit('C14-R4', ok, MOLECULE, anchor, 'call string: one symbol ("." when uncalled) per aligned pair of the read, looked up by (contig, reference position)', key='call-string')
 
 
@@ -337,9 +353,22 @@ def r5(ctx):
     n = 0
     for (r1, r2), (kk, ws, we) in want.items():
         facts = {'dove_safe': True, 'R1.is_reverse': r1, 'R2.is_reverse': r2, 'R1 is None': False, 'R2 is None': False, 'R1 is not None': True, 'R2 is not None': True}
-        paths = [env for kind, env in final_assignments(f.body, lambda e: facts.get(src(e), UNK), {sv, evn}, upto=rcalls[0])]
+        paths = [r_['env'] for r_ in explore(f.body, lambda e: facts.get(src(e), UNK), names=None, upto=rcalls[0]) if r_['kind'] == 'upto']
         n += 1
-        got = {(str(linform(env[sv])) if sv in env else None, str(linform(env[evn])) if evn in env else None) for env in paths}
+
+        def resolved(env, nm):
+            # the window expression with the locals it mentions written out (a mate picked into a local: `left = R2; start = left.reference_start + d`)
+            from ..util import _subst_names
+            e = env.get(nm)
+            for _ in range(4):
+                if e is None:
+                    break
+                sub = {k_: v_ for k_, v_ in env.items() if k_ != nm and k_ in names_in(e) and isinstance(v_, (ast.Name, ast.Attribute, ast.Constant, ast.BinOp))}
+                if not sub:
+                    break
+                e = _subst_names(e, sub)
+            return e
+        got = {(str(linform(resolved(env, sv))) if sv in env else None, str(linform(resolved(env, evn))) if evn in env else None) for env in paths}
         ok = bool(paths) and got == {(str(ws), str(we))}
         ctx.emit('C14-R5', ok, SEQUTILS, rcalls[0], f'orientation `{kk}`: safe window {sorted(got, key=str)} on {len(paths)} path(s)' +
                  ('' if ok else f' (expected [{ws}, {we}] inclusive: the last base of the right mate is reference_end - 1)'), key=f'dove-window:{kk}',
